@@ -172,8 +172,9 @@ class Report:
             "wall_s": round(time.time() - self.t0, 2),
             "violations": len(self.violations),
         }
-        with open(os.path.join(EVIDENCE, self.pid + ".json"), "w") as f:
-            json.dump(ev, f, indent=1, default=str)
+        if not os.environ.get("VERIF_REPLAY"):       # a replay is not a run of the check
+            with open(os.path.join(EVIDENCE, self.pid + ".json"), "w") as f:
+                json.dump(ev, f, indent=1, default=str)
         return 1 if self.violations else 0
 
 
